@@ -96,13 +96,38 @@ func c16Accounting(r *core.Report) {
 				if strings.HasSuffix(o.Type().String(), "bufio.Writer") {
 					writerObj = o
 				}
-				if nm.Name == "currentFileSize" {
-					sizeObj = o
-				}
 			}
 		}
 		return true
 	})
+	// the size counter of the current piece: the local that the recorded ContentSize is computed from and that is advanced
+	// with += (identified by its role, not by its name)
+	{
+		cands := map[types.Object]bool{}
+		ast.Inspect(root.Body, func(n ast.Node) bool {
+			if kv, ok := n.(*ast.KeyValueExpr); ok {
+				if id, ok := kv.Key.(*ast.Ident); ok && id.Name == "ContentSize" {
+					ast.Inspect(kv.Value, func(m ast.Node) bool {
+						if vid, ok := m.(*ast.Ident); ok {
+							if v, isV := info.Uses[vid].(*types.Var); isV && !v.IsField() {
+								cands[v] = true
+							}
+						}
+						return true
+					})
+				}
+			}
+			return true
+		})
+		ast.Inspect(root.Body, func(n ast.Node) bool {
+			if as, ok := n.(*ast.AssignStmt); ok && as.Tok == token.ADD_ASSIGN && len(as.Lhs) == 1 {
+				if o := core.ObjOf(info, as.Lhs[0]); o != nil && cands[o] {
+					sizeObj = o
+				}
+			}
+			return true
+		})
+	}
 	if writerObj == nil || sizeObj == nil {
 		r.Undecided(rule, root.Key+"#vars", posP(r, root.Pos()), "piece writer / currentFileSize variables not found")
 		return
@@ -110,9 +135,11 @@ func c16Accounting(r *core.Report) {
 	fns := append([]*core.Func{root}, allLits(root)...)
 	seen := map[string]int{}
 	for _, f := range fns {
-		where := closureName(root, f)
-		if where == "" {
-			where = "literal"
+		// the closure is named by its role in the key of the literal (field it is stored in, or its signature when it is
+		// bound to a local), never by the spelling of a local
+		where := "literal"
+		if i := strings.LastIndex(f.Key, "$"); i >= 0 {
+			where = f.Key[i+1:]
 		}
 		if f == root {
 			continue
@@ -485,7 +512,7 @@ func c16CompletionOrder(r *core.Report) {
 			continue
 		}
 		n++
-		k := fmt.Sprintf("%s#concurrent-store:%s", f.Key, cs.Target.Name())
+		k := fmt.Sprintf("%s#concurrent-store:%s", f.Key, tokenOrName(f, cs.Target))
 		if cs.Indexed {
 			slotObj, launchLoop = cs.Target, cs.Loop
 			r.OK(rule, k, pos(r, cs.Stmt), "each concurrently opened piece is stored in the slot of its own index")
@@ -788,7 +815,10 @@ func c16ReadAtEOF(r *core.Report) {
 		if len(res) != 2 {
 			continue
 		}
-		if id, ok := core.Unparen(res[1]).(*ast.Ident); ok && id.Name == "err" {
+		if id, ok := core.Unparen(res[1]).(*ast.Ident); ok && info.Uses[id] != nil && core.IsErrorType(info.Uses[id].Type()) {
+			if _, isVar := info.Uses[id].(*types.Var); !isVar {
+				continue
+			}
 			for _, fc := range g.FactsAt(rn) {
 				if be, ok := core.Unparen(fc.Expr).(*ast.BinaryExpr); ok && fc.Tag == nil && fc.Truth && be.Op == token.NEQ && (isEOF(be.X) || isEOF(be.Y)) {
 					nErr++
@@ -819,7 +849,7 @@ func c16ReadAtEOF(r *core.Report) {
 			if !ok || core.ObjOf(info, ix.Index) != key {
 				return true
 			}
-			if be, ok := core.Unparen(c.Args[1]).(*ast.BinaryExpr); ok && be.Op == token.SUB && core.ObjOf(info, be.Y) == val && core.ExprStr(be.X) == "off" {
+			if be, ok := core.Unparen(c.Args[1]).(*ast.BinaryExpr); ok && be.Op == token.SUB && core.ObjOf(info, be.Y) == val && f.ParamObj(1) != nil && core.ObjOf(info, be.X) == types.Object(f.ParamObj(1)) {
 				okRel = true
 			}
 			return true
@@ -838,30 +868,70 @@ func c16OnePiecePerBlock(r *core.Report) {
 	}
 	info := root.Pkg.TypesInfo
 	p := r.Prog
-	byName := map[string]*core.Func{}
+	// the three closures, identified by what they do (not by the names they are bound to):
+	//   writeObject   - calls Write on the piece's bufio.Writer with its own []byte parameter
+	//   createNewFile - creates the piece file (os.Create) / re-binds the buffered writer
+	//   writeBlockDag - ranges over its slice parameter and calls writeObject
+	boundTo := map[*core.Func]types.Object{}
+	ast.Inspect(root.Body, func(n ast.Node) bool {
+		if as, ok := n.(*ast.AssignStmt); ok {
+			for i, rhs := range as.Rhs {
+				if lit, ok := core.Unparen(rhs).(*ast.FuncLit); ok && i < len(as.Lhs) {
+					if lf := p.ByLit[lit]; lf != nil {
+						boundTo[lf] = core.ObjOf(info, as.Lhs[i])
+					}
+				}
+			}
+		}
+		return true
+	})
+	callsVar := func(f *core.Func, target *core.Func) []*ast.CallExpr {
+		var out []*ast.CallExpr
+		if f == nil || target == nil || boundTo[target] == nil {
+			return nil
+		}
+		for _, c := range core.CallsIn(f.Body, false) {
+			if core.ObjOf(info, c.Fun) == boundTo[target] {
+				out = append(out, c)
+			}
+		}
+		return out
+	}
+	var create, wdag, wobj *core.Func
 	for _, l := range allLits(root) {
-		if nm := closureName(root, l); nm != "" {
-			byName[nm] = l
+		if boundTo[l] == nil {
+			continue
+		}
+		for _, c := range core.CallsIn(l.Body, false) {
+			if sel, ok := core.Unparen(c.Fun).(*ast.SelectorExpr); ok && sel.Sel.Name == "Write" && len(c.Args) == 1 {
+				if t := info.TypeOf(sel.X); t != nil && strings.HasSuffix(t.String(), "bufio.Writer") && l.ParamObj(0) != nil && core.ObjOf(info, c.Args[0]) == types.Object(l.ParamObj(0)) {
+					wobj = l
+				}
+			}
+			if core.CalleeName(info, c) == "os.Create" {
+				create = l
+			}
 		}
 	}
-	create, wdag, wobj := byName["createNewFile"], byName["writeBlockDag"], byName["writeObject"]
+	for _, l := range allLits(root) {
+		if boundTo[l] == nil || l == wobj || l.ParamObj(0) == nil {
+			continue
+		}
+		ast.Inspect(l.Body, func(n ast.Node) bool {
+			if rs, ok := n.(*ast.RangeStmt); ok && core.ObjOf(info, rs.X) == types.Object(l.ParamObj(0)) && len(callsVar(&core.Func{Body: rs.Body}, wobj)) > 0 {
+				wdag = l
+			}
+			return true
+		})
+	}
 	if create == nil || wdag == nil || wobj == nil {
 		r.Undecided(rule, root.Key+"#closures", posP(r, root.Pos()), "closures createNewFile / writeBlockDag / writeObject not found")
 		return
 	}
 	// the accumulator callback: the literal that calls both createNewFile and writeBlockDag
 	var cb *core.Func
-	callsVar := func(f *core.Func, name string) []*ast.CallExpr {
-		var out []*ast.CallExpr
-		for _, c := range core.CallsIn(f.Body, false) {
-			if id, ok := core.Unparen(c.Fun).(*ast.Ident); ok && id.Name == name {
-				out = append(out, c)
-			}
-		}
-		return out
-	}
 	for _, l := range allLits(root) {
-		if len(callsVar(l, "createNewFile")) > 0 && len(callsVar(l, "writeBlockDag")) > 0 {
+		if len(callsVar(l, create)) > 0 && len(callsVar(l, wdag)) > 0 {
 			cb = l
 		}
 	}
@@ -871,12 +941,12 @@ func c16OnePiecePerBlock(r *core.Report) {
 	}
 	g := p.Graph(cb)
 	// (a) every createNewFile call in the callback precedes the write of the family (no path from the write to a create)
-	wcall := callsVar(cb, "writeBlockDag")[0]
+	wcall := callsVar(cb, wdag)[0]
 	wn := g.NodeOf(wcall.Pos())
 	okOrder := wn != nil
 	if wn != nil {
 		reach := g.Reach(wn, nil)
-		for _, c := range callsVar(cb, "createNewFile") {
+		for _, c := range callsVar(cb, create) {
 			if cn := g.NodeOf(c.Pos()); cn != nil && reach[cn] {
 				okOrder = false
 			}
@@ -885,7 +955,7 @@ func c16OnePiecePerBlock(r *core.Report) {
 	r.Check(okOrder, rule, root.Key+"#new-piece-decided-before-write", pos(r, wcall), "a new piece is started only before the block's objects are written",
 		"a new piece can be started after (part of) the block's objects were written")
 	// (b) the writing closures never start a new piece
-	okNoCreate := len(callsVar(wdag, "createNewFile")) == 0 && len(callsVar(wobj, "createNewFile")) == 0
+	okNoCreate := len(callsVar(wdag, create)) == 0 && len(callsVar(wobj, create)) == 0
 	r.Check(okNoCreate, rule, root.Key+"#writers-do-not-switch-piece", posP(r, wdag.Pos()), "writeBlockDag / writeObject cannot switch to a new piece in the middle of a block",
 		"writeBlockDag / writeObject can start a new piece in the middle of a block: a block and its objects are spread over two pieces")
 	// (c) the family handed to the writer is children followed by the block, written in range order, every member written
@@ -903,9 +973,17 @@ func c16OnePiecePerBlock(r *core.Report) {
 			return true
 		}
 		if c, ok := core.Unparen(as.Rhs[0]).(*ast.CallExpr); ok && core.BuiltinName(info, c) == "append" && len(c.Args) == 2 {
-			a0 := core.ExprStr(c.Args[0])
-			a1 := core.ExprStr(c.Args[1])
-			if a0 == "children" && strings.Contains(a1, "parent") && c.Ellipsis == token.NoPos {
+			// append(<the callback's slice parameter: the children>, <its pointer parameter: the block>)
+			var slicePar, ptrPar types.Object
+			for i := 0; cb.ParamObj(i) != nil; i++ {
+				switch cb.ParamObj(i).Type().Underlying().(type) {
+				case *types.Slice:
+					slicePar = cb.ParamObj(i)
+				case *types.Pointer:
+					ptrPar = cb.ParamObj(i)
+				}
+			}
+			if slicePar != nil && ptrPar != nil && core.ObjOf(info, c.Args[0]) == slicePar && core.Mentions(info, c.Args[1], ptrPar) && c.Ellipsis == token.NoPos {
 				okFamily = true
 			}
 		}
@@ -919,7 +997,7 @@ func c16OnePiecePerBlock(r *core.Report) {
 		}
 		if len(wdag.Type.Params.List) == 1 && len(wdag.Type.Params.List[0].Names) == 1 && core.ObjOf(info, rs.X) == info.Defs[wdag.Type.Params.List[0].Names[0]] {
 			// every iteration writes (the only ways out of the body before writeObject are error returns)
-			hasWrite := len(callsVar(&core.Func{Body: rs.Body}, "writeObject")) > 0
+			hasWrite := len(callsVar(&core.Func{Body: rs.Body}, wobj)) > 0
 			skips := false
 			ast.Inspect(rs.Body, func(x ast.Node) bool {
 				if b, ok := x.(*ast.BranchStmt); ok && (b.Tok == token.CONTINUE || b.Tok == token.BREAK) {
